@@ -45,6 +45,30 @@ BASE2 = c06.BASE.replace("List[str]", "List[Tag]").replace(
 @invariant(lambda self: not (self.tags is not None)''')
 
 
+def _cli_contract(rc: int, out_text: str, err_text: str, out_dir: pathlib.Path, accepted: Optional[bool]) -> Optional[str]:
+    """C03: exit 0 <=> 'Code generated to: <dir>' on stdout and nothing on stderr; otherwise exit 1, nothing announced
+    on stdout, and stderr = a headline ending in ':' followed by '* ' entries."""
+    if rc == 0:
+        if accepted is False:
+            return "exit code 0 for a meta-model that the front end rejects"
+        if err_text != "":
+            return f"exit code 0 although stderr is not empty: {err_text[:120]!r}"
+        if out_text != f"Code generated to: {out_dir}\n":
+            return f"exit code 0 but stdout is {out_text[:120]!r}"
+        return None
+    if rc != 1:
+        return f"exit code {rc}"
+    if "Code generated to" in out_text:
+        return "exit code 1 although the generation is announced on stdout"
+    lines = err_text.split("\n")
+    if not lines[0].endswith(":") or len(lines) < 2 or not lines[1].startswith("* "):
+        return f"exit code 1 but stderr is not a headline ending in ':' followed by '* ' entries: {err_text[:160]!r}"
+    for ln in lines[1:]:
+        if ln and not (ln.startswith("* ") or ln.startswith("  ")):
+            return f"a line of the report is neither an entry nor indented: {ln[:100]!r}"
+    return None
+
+
 def _generate(args: Any) -> Optional[Dict[str, Any]]:
     what, text, targets = args
     with tempfile.TemporaryDirectory() as d:
@@ -58,9 +82,26 @@ def _generate(args: Any) -> Optional[Dict[str, Any]]:
             res, err = run.load_model(model_path)
         except BaseException as e:  # noqa
             return {"what": what, "target": "<front end>", "observed": f"load_model raised {type(e).__name__}", "skip": True}
-        if err is not None:
-            return None  # not accepted: outside C02
         failures: List[Dict[str, Any]] = []
+        if err is not None:
+            # not accepted: outside C02; the command-line contract of C03 still applies (one target is enough: the
+            # front end is shared)
+            out = root / "out_rejected"
+            out.mkdir()
+            stdout, stderr = io.StringIO(), io.StringIO()
+            try:
+                rc = cg_main.execute(cg_main.Parameters(model_path=model_path, target=cg_main.Target.PYTHON,
+                                                        snippets_dir=root / "snippets", output_dir=out,
+                                                        cache_model=False), stdout=stdout, stderr=stderr)
+            except BaseException as e:  # noqa
+                return {"what": what, "failures": [{"property": "C03", "what": what, "target": "python", "site": "front-end",
+                                                    "observed": f"main.execute raised {type(e).__name__} on a rejected "
+                                                                f"meta-model", "meta_model": text}]}
+            bad = _cli_contract(rc, stdout.getvalue(), stderr.getvalue(), out, accepted=False)
+            if bad is not None:
+                return {"what": what, "failures": [{"property": "C03", "what": what, "target": "python", "site": "cli",
+                                                    "observed": bad, "meta_model": text}]}
+            return None
         for target in targets:
             out = root / f"out_{target.value}"
             out.mkdir()
@@ -73,13 +114,14 @@ def _generate(args: Any) -> Optional[Dict[str, Any]]:
                 import traceback
                 tb = [x for x in traceback.extract_tb(e.__traceback__) if "aas_core_codegen" in x.filename]
                 site = f"{pathlib.Path(tb[-1].filename).name}:{tb[-1].name}" if tb else "?"
-                failures.append({"what": what, "target": target.value, "site": site,
+                failures.append({"property": "C02", "what": what, "target": target.value, "site": site,
                                  "observed": f"the {target.value} generator raised {type(e).__name__}: {str(e)[:200]}",
                                  "meta_model": text})
                 continue
-            if rc != 0 and not stderr.getvalue().strip():
-                failures.append({"what": what, "target": target.value, "site": "exit-code",
-                                 "observed": f"exit code {rc} without an error report", "meta_model": text})
+            bad = _cli_contract(rc, stdout.getvalue(), stderr.getvalue(), out, accepted=None)
+            if bad is not None:
+                failures.append({"property": "C03", "what": what, "target": target.value, "site": "cli",
+                                 "observed": bad, "meta_model": text})
         if failures:
             return {"what": what, "failures": failures}
     return {"what": what, "accepted": True}
